@@ -163,7 +163,9 @@ def check_call(run, case):
         if family.get('decl') == 'shared-payload':
             # (families borrowed from C06: every member keeps the very same
             # payload object, which reports the arguments only)
-            return got[0] == 'ok' and got[1] is None and \
+            # (members without a plain positional signature stay assembled
+            # and tagged)
+            return got[0] == 'ok' and got[1] in (None, o[1]) and \
                 got[2:4] == _norm([o[2], o[3]])
         return got[0] == 'ok' and got[1:4] == _norm([o[1], o[2], o[3]])
     hit = [o for o in outcomes if same(o)]
@@ -202,7 +204,7 @@ REPLAY = {'call': check_call}
 # generators
 
 TYPES = ['obj', 'A', 'B', 'C', 'D', 'int', 'Integer', 'String', 'bool',
-         'Number', 'BorD']
+         'Number', 'BorD', 'Pos']
 GOOD = {
     'obj': [{'o': 'a'}, {'o': 'c'}, 1, 'x', True],
     'A': [{'o': 'a'}, {'o': 'b'}, {'o': 'c'}, {'o': 'd'}],
@@ -210,9 +212,10 @@ GOOD = {
     'int': [0, 7, True], 'Integer': [0, 7], 'String': ['x', ''],
     'bool': [True, False],
     'Number': [0, 7, 1.5], 'BorD': [{'o': 'b'}, {'o': 'c'}, {'o': 'd'}],
+    'Pos': [7, 5, True],
 }
-ANY = [{'o': 'a'}, {'o': 'b'}, {'o': 'c'}, {'o': 'd'}, 0, 7, 'x', True, None,
-       1.5]
+ANY = [{'o': 'a'}, {'o': 'b'}, {'o': 'c'}, {'o': 'd'}, 0, 7, -3, 'x', True,
+       None, 1.5]
 PNAMES = ['p', 'q', 'r', 's', 'long_name', 'k']
 ALIASES = {'long_name': 'longName', 'p': 'pAlias', 'q': 'q_', 'k': 'key'}
 
